@@ -26,10 +26,24 @@ func (o *OracleC01) check(n *Node, idx uint32, h Hash, how string) {
 			// before the node knew the proposal, the fork is a consequence of the known
 			// finding D1 (early commits are never re-validated).
 			class := "fork"
+			// (only an acceptance of one of the two conflicting blocks counts, and the other
+			// block must have been accepted by somebody on a fully valid certificate)
+			d1, sound := false, false
 			for _, a := range o.s.accepts[idx] {
-				if a.cert.knownD1() {
-					class = "fork_via_unverified_early_commit"
+				if a.hash != h && a.hash != prev {
+					continue
 				}
+				if a.cert.knownD1() {
+					d1 = true
+				}
+			}
+			for _, a := range o.s.accepts[idx] {
+				if (a.hash == h || a.hash == prev) && a.cert.ok() {
+					sound = true
+				}
+			}
+			if d1 && sound {
+				class = "fork_via_unverified_early_commit"
 			}
 			o.s.Violate("C01", class,
 				fmt.Sprintf("height %d: %s %s block %s but n%d accepted %s", idx, n, how, h, o.who[idx], prev), n.id)
